@@ -24,7 +24,7 @@ FAULTS = ["none", "none", "flip_ct", "flip_tag", "flip_aad", "flip_nonce", "trun
           "swap_nonce", "block_swap", "block_swap_pow2", "drop_aad"]
 KW_FAULTS = ["none", "none", "flip_ct", "trunc8", "ext8", "rotate8", "splice", "craft_icv", "craft_len", "craft_pad", "trunc1"]
 PATHS = ["dav", "dav", "split", "split_hex", "dav_out", "split_out", "split_alias", "dav_alias", "verify_twice", "pieces", "pieces",
-         "pieces_refused"]
+         "pieces_refused", "dav_unaligned"]
 STYLES = ["oneshot", "oneshot", "oneshot", "stream", "stream", "stream_refused"]
 
 
@@ -110,6 +110,9 @@ class Machine(object):
                     n = rng.choice([16, 16, 24, 32, 40, 64, 256])
                 else:
                     n = rng.choice([1, 7, 8, 9, 15, 16, 17, 20, 31, 32, 33, 100])
+                if i == 0 and rng.random() < 0.012:
+                    # more than 2^16 steps of the wrapping function (6 * n/8 > 65535): the step counter needs its third octet
+                    n = rng.choice([87392, 87400, 131072]) if fam == "KW" else rng.choice([87385, 87392, 100001])
                 recs.append({"pt": [s + 10 + i, n]})
             ops = []
             for _ in range(rng.randrange(2, 10)):
@@ -526,6 +529,11 @@ class Machine(object):
                 return self._receive_pieces(ctx, cfg, nonce, aad, ct, tag, salt, path == "pieces_refused")
             if path in ("pieces", "pieces_refused"):
                 path = "dav"
+            if path == "dav_unaligned":
+                # the record sits at an odd address in the receiver's buffer (accelerated code paths load 16 bytes at a time)
+                off = 1 + salt % 15
+                buf = bytearray(off) + bytearray(ct) + bytearray(3)
+                return True, c.decrypt_and_verify(memoryview(buf)[off:off + len(ct)], tag)
             if path == "dav":
                 return True, c.decrypt_and_verify(ct, tag)
             if path == "dav_out":
